@@ -7,7 +7,52 @@ import sys
 VERIF = os.path.dirname(os.path.dirname(os.path.abspath(__file__)))
 
 # id -> dict(level, text, note, technique, design_ref, engine)
+ROUTE_NOTE = ("Trusted: the fake gRPC stream endpoints (blocking Recv, context cancellation, CloseSend => peer EOF), the transcription of "
+              "Temporal's ExecutableTaskTracker (v1.31.2) used as target model, testing/synctest's virtual time. Assumed: cascades triggered by "
+              "one environment event are confluent (events are applied one at a time and run to quiescence); hand-off channel / ring capacities "
+              "are abstracted to small values in the scenarios that need 'queue full' or 'ring wraps' (rewriter rule caps). Bounds: <=3x2 shards, "
+              "<=4 tasks per source, <=1 watermark-only batch and <=1 s of virtual time before the closing phase, <=1 repeated ack per value.")
+
 CLAIMED = {
+    "C01": dict(
+        level="model_checking",
+        text="Explicit-state BFS over all orders of environment events (stream opens incl. late targets, source batches, watermark-only "
+             "batches, task completions, target acknowledgements, slow-target accepts, 1 s time steps) for a family of 1x1..3x2 routing "
+             "scenarios, each transition executed on the real routing-mode handlers in a synctest bubble (successor = replay of the action "
+             "path on a fresh instance + one action), states de-duplicated on the environment model plus the private proxy fields later "
+             "steps read. Oracle at every SyncReplicationState sent to a source: every task below the ack that the source returned has been "
+             "forwarded on a target stream which has emitted a watermark above its proxy id. From every reached state a fair closing phase "
+             "is also run, so the oracle is evaluated on the continuation of every state.",
+        note=ROUTE_NOTE, technique="explicit-state BFS over environment-event orders on the implementation (replay-based successors, virtual time)",
+        design_ref="5/C01", engine="A-macro"),
+    "C02": dict(
+        level="model_checking",
+        text="Same exploration as C01 with the delivery oracle: per target stream strictly increasing task ids, exclusive high watermark above "
+             "the last id and above every earlier high, Temporal's tracker model never drops a task or panics, each task on the stream of the "
+             "shard Temporal's own hash assigns it to (including same workflow id in two namespaces), payload proto.Equal apart from the two "
+             "id fields, per (source,target) order preserved, no task twice; at the end of the closing phase of every state every returned "
+             "task has been delivered exactly once.",
+        note=ROUTE_NOTE, technique="explicit-state BFS over environment-event orders on the implementation + closing phase from every state",
+        design_ref="5/C02", engine="A-macro"),
+    "C03": dict(
+        level="model_checking",
+        text="Same exploration; safety oracle at every ack (non-decreasing per source stream, never above the largest exclusive high "
+             "watermark returned on that stream) and bounded liveness: from EVERY reached state the deterministic fair closing phase (targets "
+             "complete and acknowledge everything, sources send their periodic watermark, 1 s passes; at most 6 rounds) must end with every "
+             "source having received an ack equal to its final high watermark. Includes a slow target whose hand-off queue (capacity 1) is "
+             "full when the watermark is broadcast and a target that never receives a task.",
+        note=ROUTE_NOTE, technique="explicit-state BFS + bounded fair suffix from every reachable state (virtual time)",
+        design_ref="5/C03", engine="A-macro"),
+    "C04": dict(
+        level="model_checking",
+        text="C01's exploration extended with fault actions enabled in every quiescent state: a target stream breaks, the proxy's pull stream "
+             "from a source breaks, the stream a source initiated breaks; followed by every order of reconnections, resends from the "
+             "acknowledged level and acknowledgements. Oracle across incarnations: a task below an ack must have been confirmed by some target "
+             "stream incarnation. One genuine defect is recorded as a known finding (tasks in flight on a target stream that ends are later "
+             "acknowledged); any other early ack is a violation.",
+        note=ROUTE_NOTE + " Faults are injected at quiescent states only (between cascades), <=1 fault per path in quick, <=2 in thorough.",
+        technique="explicit-state BFS over event orders x fault positions on the implementation",
+        design_ref="5/C04", engine="A-macro"),
     "C05": dict(
         level="model_checking",
         text="Explicit-state breadth-first search over the real proxyIDRingBuffer (cloned through its private "
@@ -64,6 +109,9 @@ def main():
         "engines": [
             {"name": "B-seq", "path": "/verif/harness", "serves_properties": ["C05"],
              "kind_free_text": "explicit-state / bounded-exhaustive enumeration driving the real code in-package"},
+            {"name": "A-macro", "path": "/verif/harness/proxy/routing_*.go + /verif/rt/pool.go", "serves_properties": ["C01", "C02", "C03", "C04"],
+             "kind_free_text": "explicit-state BFS whose transitions are executions of the real goroutines in testing/synctest bubbles; "
+                               "successors by replay; 16 persistent GOMAXPROCS=1 worker processes"},
         ],
         "checks": checks,
         "not_applicable": na,
